@@ -561,7 +561,15 @@ def run_case(fam, kind, rng, rec, ci):
         form = state_form(o, is_tree)
         rec.ev('%s:form:%s' % (impl, form))
         if is_tree:
-            w = walker.walk(o, is_mapping)
+            try:
+                w = walker.walk(o, is_mapping)
+            except Exception as e:
+                # a state the independent walker cannot even read (a key
+                # where a child should be, ...)
+                rec.violation('state-not-walkable', impl=impl,
+                              detail='%s: %s' % (type(e).__name__, e),
+                              state=brief(o.__getstate__(), 300), **desc)
+                return
             if w.errors:
                 return
             shape[impl] = walker.shape_class(w)
